@@ -12,7 +12,7 @@ theorem fin_ok_eq {α : Type} {l : Lexer} {a b : α} (h : fin l a = .ok b) : a =
   · cases h
   · cases h; rfl
 
-theorem Res.map_eq_ok {α β : Type} {f : α → β} {r : Res α} {b : β} (h : r.map f = .ok b) :
+theorem Res.map_eq_ok_b {α β : Type} {f : α → β} {r : Res α} {b : β} (h : r.map f = .ok b) :
     ∃ a, r = .ok a ∧ f a = b := by
   cases r with
   | ok a => exact ⟨a, rfl, by simpa [Res.map, Res.bind] using h⟩
@@ -124,12 +124,12 @@ theorem parseOpt_typed : ∀ (fuel code : Nat) (data : Bytes) (o : Opt6),
     unfold parseOpt at h
     by_cases h1 : code = 1
     · rw [if_pos h1] at h
-      obtain ⟨d, _, rfl⟩ := Res.map_eq_ok h
+      obtain ⟨d, _, rfl⟩ := Res.map_eq_ok_b h
       exact ⟨fun hc => by simp [Opt6.code, ocIANA] at hc, fun _ => ⟨d, rfl⟩⟩
     rw [if_neg h1] at h
     by_cases h2 : code = 2
     · rw [if_pos h2] at h
-      obtain ⟨d, _, rfl⟩ := Res.map_eq_ok h
+      obtain ⟨d, _, rfl⟩ := Res.map_eq_ok_b h
       exact ⟨fun hc => by simp [Opt6.code, ocIANA] at hc, fun hc => by simp [Opt6.code, ocClientID] at hc⟩
     rw [if_neg h2] at h
     by_cases h3 : code = 3
@@ -159,7 +159,7 @@ theorem parseOpt_typed : ∀ (fuel code : Nat) (data : Bytes) (o : Opt6),
     rw [if_neg h5] at h
     by_cases h9 : code = 9
     · rw [if_pos h9] at h
-      obtain ⟨d, _, rfl⟩ := Res.map_eq_ok h
+      obtain ⟨d, _, rfl⟩ := Res.map_eq_ok_b h
       exact ⟨fun hc => by simp [Opt6.code, ocIANA] at hc, fun hc => by simp [Opt6.code, ocClientID] at hc⟩
     rw [if_neg h9] at h
     by_cases h25 : code = 25
@@ -181,7 +181,7 @@ theorem parseOpt_typed : ∀ (fuel code : Nat) (data : Bytes) (o : Opt6),
     rw [if_neg h26] at h
     by_cases h97 : code = 97
     · rw [if_pos h97] at h
-      obtain ⟨d, _, rfl⟩ := Res.map_eq_ok h
+      obtain ⟨d, _, rfl⟩ := Res.map_eq_ok_b h
       exact ⟨fun hc => by simp [Opt6.code, ocIANA] at hc, fun hc => by simp [Opt6.code, ocClientID] at hc⟩
     rw [if_neg h97] at h
     have hc := decSimple_code h
@@ -236,11 +236,11 @@ theorem dec6_typed {b : Bytes} {m : Msg6} (h : dec6 b = .ok m) : ∀ o ∈ m.opt
     · split at h
       · split at h
         · cases h
-        · obtain ⟨os, hos, rfl⟩ := Res.map_eq_ok h
+        · obtain ⟨os, hos, rfl⟩ := Res.map_eq_ok_b h
           exact decOptsF_typed _ _ _ hos
       · split at h
         · cases h
-        · obtain ⟨os, hos, rfl⟩ := Res.map_eq_ok h
+        · obtain ⟨os, hos, rfl⟩ := Res.map_eq_ok_b h
           exact decOptsF_typed _ _ _ hos
 
 theorem IANATyped_of_typed {os : List Opt6} (h : ∀ o ∈ os, o.Typed) : IANATyped os :=
